@@ -80,7 +80,10 @@ func intVal(t string) Val  { return Val{K: KInt, T: types.Typ[types.Int], S: t} 
 // typeKey gives a stable, SMT-friendly key for a Go type.
 func typeKey(t types.Type) string {
 	s := types.TypeString(t, func(p *types.Package) string {
-		return shortPkg(p.Path())
+		if p.Path() == modPath {
+			return ""
+		}
+		return p.Name()
 	})
 	return s
 }
